@@ -82,7 +82,14 @@ func guessLen(d tds.FieldData) int {
 	return int(d.Format().MaxLength())
 }
 
-func renderAny(p tds.Package) sx.T {
+// renderAny renders a delivered package. A package that cannot be rendered (e.g. a format package with nil entries,
+// which only a broken parser delivers) is shown as token -2 instead of taking the harness down.
+func renderAny(p tds.Package) (res sx.T) {
+	defer func() {
+		if r := recover(); r != nil {
+			res = sx.L{sx.I(1), sx.I(-2), pk.S("unrenderable package")}
+		}
+	}()
 	for _, r := range append([]func(tds.Package) (int, sx.T, bool){renderCore}, pk.Renderers...) {
 		if tok, f, ok := r(p); ok {
 			return sx.L{sx.I(1), sx.I(int64(tok)), f}
